@@ -23,7 +23,7 @@ def run(check, pool, Task):
     check.bounds.update({'arrays': 'inert rows first / last / all rows / a run of consecutive rows, <= 5 rows; every coordinate additionally carries a NaN flag, '
                                    'so elements without any finite coordinate are covered symbolically',
                          'rtree': 'n <= 3 rows with a NaN flag per row, every page size', 'cx': 'n <= 2 (3) rows with NaN flags, with and without index',
-                         'outside': 'Hilbert packing and the pandas merges of sjoin; Dask (see C06)'})
+                         'outside': 'Hilbert packing and the pandas merges of sjoin; Dask beyond total_bounds and cx (see C06)'})
     check.assumptions += ['arbitrary (also non-exact) coordinates are covered by the relational form: no oracle is needed, products are uninterpreted']
     bases = {k: (v if thorough else v[:3]) for k, v in INERT.items()}
     W.run_arrays(check, pool, Task, 'C17', allq, derivs=['identity'], dtypes=('float64',), flags='nan', bases=bases, inert=True, label='inert')
@@ -40,10 +40,32 @@ def run(check, pool, Task):
     for n, ps, wi, par in [(1, 1, True, False), (2, 1, True, False), (2, 2, True, True), (2, 1, False, False), (3, 1, False, True)] + ([(3, 2, True, False)] if thorough else []):
         tasks.append(Task(f'cx with inert rows n={n} page={ps} index={wi} parent={par}', c04.q_getitem, (n, ps), {'with_index': wi, 'parent': par, 'nan_rows': True, 'budget_s': cap - 30},
                           timeout=cap, meta={'kind': 'cx', 'n': n, 'ps': ps, 'wi': wi, 'par': par}))
+    from . import c06
+    for p in ([[0, 1], [2]], [[0], [], [1]], [[], [0]]):
+        tasks.append(Task(f'Dask total_bounds with inert rows / partitions, partitions={p}', c06.q_total_bounds, (p,), timeout=300, meta={'kind': 'dask-tb', 'part': p}))
+    for p in ([[0, 1], [2]], [[0], [], [1]]):
+        tasks.append(Task(f'Dask cx with inert rows, partitions={p}', c06.q_cx, (p,), {'which': 'cx', 'budget_s': cap - 30}, timeout=cap, meta={'kind': 'dask-cx', 'part': p}))
     res = pool(tasks)
     for t in tasks:
         r = res.get(t.name, {'status': 'error', 'detail': 'no result'})
         m = t.meta
+        if m['kind'] == 'dask-tb' and r['status'] == 'sat':
+            from .run_c06 import replay_tb
+            bad, wit = replay_tb(m['part'], r['model'])
+            if bad:
+                v = check.violation('C17:dask:total_bounds', f"Dask total_bounds {wit['got']} but the non-inert rows give {wit['expected']}", wit)
+                check.record(t.name, dict(r, status='known-finding' if v == 'known' else 'violated'), 'query', m)
+            else:
+                check.record(t.name, dict(r, status='inconclusive', detail='did not reproduce'), 'query', m)
+            continue
+        if m['kind'] == 'dask-cx' and r['status'] == 'violated':
+            bad, wit = c06.replay_cx(m['part'], 'cx', r['model'], r.get('rect', False))
+            if bad:
+                v = check.violation('C17:dask:cx', f"Dask cx returned rows {wit.get('got')} but exactly rows {wit.get('expected')} intersect", wit)
+                check.record(t.name, dict(r, status='known-finding' if v == 'known' else 'violated'), 'paths', m)
+            else:
+                check.record(t.name, dict(r, status='inconclusive', detail=f'did not reproduce: {str(wit)[:200]}'), 'paths', m)
+            continue
         if r['status'] == 'violated' and m['kind'] == 'rtree':
             ok, wit = c03.replay(r, m['n'], m['page_size'], 2, True, m['perm'], m['mode'])
             if ok:
